@@ -119,7 +119,7 @@ func (e *Env) loadPtr(h HeapView, ref *Term, pointee types.Type) *Term {
 
 func (e *Env) sliceElem(h HeapView, sl *Term, idx *Term, elemSort string) *Term {
 	arr := Select(e.heap(h, heapSliceName(elemSort), arraySort("Int", arraySort("Int", elemSort))), A("s_base", sl))
-	return Select(arr, Add(A("s_off", sl), idx))
+	return Select(arr, Sidx(A("s_off", sl), idx))
 }
 
 func isBuilderType(t types.Type) bool {
@@ -209,6 +209,9 @@ func (e *Env) trIdent(n *ast.Ident) TV {
 	}
 	if v, ok := e.lookup(n.Name); ok {
 		return v
+	}
+	if n.Name == "ghost_cnt" {
+		return TV{e.heap(e.state, "$cnt", "Int"), tyInt}
 	}
 	// package-level constant of the contract's package
 	if e.scope != nil && e.scope.Pkg != nil {
@@ -628,6 +631,9 @@ func (e *Env) trCall(n *ast.CallExpr) TV {
 			if e.sortOf(t) == "Any" {
 				return TV{e.w.box(v.T, v.Ty), t}
 			}
+			if e.sortOf(t) == "String" && e.sortOf(v.Ty) == "Slice" {
+				return TV{A(e.w.ufunc("str_of_bytes", []string{"Slice"}, "String"), v.T), t}
+			}
 			e.fail("unsupported conversion to %s", t)
 		}
 	}
@@ -687,10 +693,38 @@ func (e *Env) trCall(n *ast.CallExpr) TV {
 		c.vars[v.Name] = TV{bv, tyInt}
 		body := c.trBool(n.Args[3])
 		rng := And(Le(lo, bv), Lt(bv, hi))
-		if id.Name == "forall" {
-			return TV{A("forall", A("("+"("+bv.Op+" Int)"+")"), Implies(rng, body)), tyBool}
+		inner := Implies(rng, body)
+		if id.Name == "exists" {
+			inner = And(rng, body)
 		}
-		return TV{A("exists", A("("+"("+bv.Op+" Int)"+")"), And(rng, body)), tyBool}
+		// patterns: slice elements addressed by the bound variable
+		pats := map[string]*Term{}
+		body.walk(func(x *Term) {
+			if x.Op == "select" && len(x.Args) == 2 && x.Args[1].Op == "sidx" && len(x.Args[1].Args) == 2 && x.Args[1].Args[1] == bv {
+				ok := true
+				x.Args[0].walk(func(y *Term) {
+					if y == bv {
+						ok = false
+					}
+				})
+				x.Args[1].Args[0].walk(func(y *Term) {
+					if y == bv {
+						ok = false
+					}
+				})
+				if ok {
+					pats[x.String()] = x
+				}
+			}
+		})
+		if len(pats) > 0 {
+			args := []*Term{inner}
+			for _, k := range sortedKeys(pats) {
+				args = append(args, Leaf(":pattern"), A("", pats[k]))
+			}
+			inner = A("!", args...)
+		}
+		return TV{A(id.Name, A("("+"("+bv.Op+" Int)"+")"), inner), tyBool}
 	case "let":
 		v, ok := n.Args[0].(*ast.Ident)
 		if !ok || len(n.Args) != 3 {
@@ -724,6 +758,11 @@ func (e *Env) trCall(n *ast.CallExpr) TV {
 	case "box":
 		v := arg(0)
 		return TV{e.w.box(v.T, v.Ty), tyAny}
+	case "boxval":
+		// boxval(T, i): the value of type T stored at reference i (pointer to a non-struct T)
+		t := e.typeArg(n.Args[0])
+		so := e.sortOf(t)
+		return TV{Select(e.heap(e.state, heapBoxName(so), arraySort("Int", so)), arg(1).T), t}
 	case "hasPrefix":
 		return TV{A("str.prefixof", arg(1).T, arg(0).T), tyBool}
 	case "hasSuffix":
@@ -743,6 +782,21 @@ func (e *Env) trCall(n *ast.CallExpr) TV {
 		}
 		cl, _ := strconv.Unquote(lit.Value)
 		return TV{e.heap(e.state, "$fx."+cl, "Int"), tyInt}
+	}
+	// explicit instance of a library axiom (only meaningful in "use" clauses)
+	for _, ax := range e.w.P.Axioms {
+		if ax.Name == id.Name {
+			if len(n.Args) != len(ax.Params) {
+				e.fail("axiom %s: %d arguments, want %d", ax.Name, len(n.Args), len(ax.Params))
+			}
+			c := &Env{w: e.w, vars: map[string]TV{}, state: e.state, scope: ax.Scope, where: e.where + " > axiom " + ax.Name}
+			for i, p := range ax.Params {
+				v := arg(i)
+				c.vars[p.Name] = TV{e.coerce(v, p.Type), p.Type}
+			}
+			e.w.axiomsUsed[ax.Name+": "+ax.Text] = true
+			return TV{c.trBool(ax.Body), tyBool}
+		}
 	}
 	if sf, ok := e.w.P.Specs[id.Name]; ok {
 		args := make([]TV, len(n.Args))
